@@ -32,7 +32,7 @@ def part_b(tier, out):
         # does sea-query itself fail to build with thread-safe, or is it a Send/Sync error in the harness?
         thread_err = ("cannot be sent between threads safely" in err) or ("cannot be shared between threads safely" in err)
         return {"build_failed": True, "thread_error_in_build": thread_err, "stderr": err}, (1 if thread_err else 2), None
-    programs, schedules = (3000, 10) if tier == "quick" else (150000, 40)
+    programs, schedules = (10000, 10) if tier == "quick" else (150000, 40)
     outf = SIM + "/target-ts/thsim-summary.json"
     if os.path.exists(outf):
         os.remove(outf)
@@ -66,7 +66,7 @@ def part_b2(tier):
     r = sh("cargo build --release --features shuttle-mode --bin miri_scn --target-dir target-ts", cwd=SIM)
     if r.returncode != 0:
         return {"build_failed": True, "stderr": r.stderr[-1500:]}, 2, None
-    n = 4000 if tier == "quick" else 200000
+    n = 20000 if tier == "quick" else 200000
     try:
         r = sh(f"./target-ts/release/miri_scn {SEED} 0 {n} pipeline", cwd=SIM, timeout=600 if tier == "quick" else 7200)
     except subprocess.TimeoutExpired:
